@@ -45,9 +45,9 @@ m('C04d_nak_counter_not_reset', D, """        assert self._params.acked_params.p
         self._params.acked_params.nak_activity_counter = 0""", """        assert self._params.acked_params.procedure_timer is not None""")
 m('C05a_no_truncate', D, """            if self.user.vfs.file_exists(self._params.fp.file_name):
                 self.user.vfs.truncate_file(self._params.fp.file_name)
-            else:""", """            if self.user.vfs.file_exists(self._params.fp.file_name):
+            elif (""", """            if self.user.vfs.file_exists(self._params.fp.file_name):
                 pass
-            else:""")
+            elif (""")
 m('C05b_write_before_lost_handling_offset', D, "self.user.vfs.write_data(self._params.fp.file_name, data, offset)", "self.user.vfs.write_data(self._params.fp.file_name, data, offset if offset > 0 else None)")
 m('C05c_fs_seek_truthy', F, """            if offset is not None:
                 of.seek(offset)
